@@ -125,8 +125,9 @@ def c19(tier, seed):
         return text(rng, rng.randrange(0, 12), [c for c in PRINTABLE if c not in '"\\'])
 
     def leaf():
-        return {"name": s(), "n": integer()}
-    noleaf = {"p": False, "v": {"name": "", "n": "0"}}
+        chain = [{"name": s(), "n": integer()} for _ in range(rng.choice([0, 0, 0, 1, 2, 3]))]
+        return {"name": s(), "n": integer(), "chain": chain}
+    noleaf = {"p": False, "v": {"name": "", "n": "0", "chain": []}}
     out = []
     for _ in range(150 if tier == "quick" else 6000):
         inner = {"label": s(), "flag": rng.choice(["true", "false"]), "leaf": {"p": True, "v": leaf()} if rng.random() < 0.5 else noleaf}
